@@ -261,6 +261,11 @@ def get_ast_term(t):
     """Obtain the abstract syntax tree for a term."""
     key = [t, settings.unicode]
     key = key + t.get_absBindVar()
+    # Which type annotations are printed depends on the declared types of the
+    # constants in t, so these are part of the key: the table outlives the
+    # current theory.
+    term_sig = theory.thy.get_data("term_sig")
+    key = key + [(c.name, term_sig.get(c.name)) for c in t.get_consts()]
     key = tuple(key)
     if key in term_ast:
         return term_ast[key]
